@@ -55,7 +55,9 @@ InnerOK == (cfg.tls13 /\ E.prot /\ E.ct # CCS) =>
 AcceptedMatchesLog == LET a == acc'[E.d][Len(acc'[E.d])] IN a.ct = E.ct /\ a.plen = E.plen
 ReadBounds == /\ E.match
               /\ (E.max >= 0 => E.len <= E.max)
-              /\ (E.len >= E.min \/ E.closed)
+              \* fewer than `min` bytes only because the connection was closed - and then nothing that was
+              \* already received may be lost: the read returns everything buffered (up to max)
+              /\ (E.len >= E.min \/ (E.closed /\ (E.len = rbuf[E.d] \/ (E.max >= 0 /\ E.len = E.max))))
 
 TW  == IsEvent("W")  /\ BeginWrite(E.d, E.n)
 TS  == IsEvent("S")  /\ SeqMatchesW /\ InnerOK
